@@ -36,10 +36,10 @@ func init() {
 		ID:   "C02",
 		Dirs: []string{"root"},
 		Jobs: func(tier string) []Job {
-			ctxs := []string{"leaf", "not", "inv", "or", "or_rev", "and", "not_or", "or_inv", "or_notl"}
+			ctxs := []string{"leaf", "not", "inv", "or", "or_rev", "and", "not_or", "or_inv", "or_notl", "or_notinv"}
 			n, pP, sn, sP, strlen := 2, 3, 2, 2, 1
 			if tier == "thorough" {
-				ctxs = []string{"leaf", "not", "inv", "notnot", "not_and1", "and", "and_rev", "or", "or_rev", "or_notl", "or_notk", "not_or", "and_or", "or_and", "or3", "or_inv", "or_inv_first", "and_inv"}
+				ctxs = []string{"leaf", "not", "inv", "notnot", "not_and1", "and", "and_rev", "or", "or_rev", "or_notl", "or_notk", "not_or", "and_or", "or_and", "or3", "or_inv", "or_inv_first", "and_inv", "or_notinv", "and_notinv"}
 				n, pP, sn, sP, strlen = 3, 4, 2, 3, 2
 			}
 			var jobs []Job
@@ -79,9 +79,9 @@ func init() {
 		},
 		Bounds: func(tier string) string {
 			if tier == "thorough" {
-				return "rows n=3 of P=4 physical (string/enum: n=2,P=3, cells <=2 bytes), value lists of 2, 18 clause contexts per leaf kernel, plus full-length permuted frames (n=P=2) in 2 contexts; all cell values, index contents and constants symbolic"
+				return "rows n=3 of P=4 physical (string/enum: n=2,P=3, cells <=2 bytes), value lists of 2, 20 clause contexts per leaf kernel, plus full-length permuted frames (n=P=2) in 2 contexts; all cell values, index contents and constants symbolic"
 			}
-			return "rows n=2 of P=3 physical (string/enum: n=2,P=2, cells <=1 byte), value lists of 2, 9 clause contexts per leaf kernel, plus full-length permuted frames (n=P=2) in 2 contexts; all cell values, index contents and constants symbolic"
+			return "rows n=2 of P=3 physical (string/enum: n=2,P=2, cells <=1 byte), value lists of 2, 10 clause contexts per leaf kernel, plus full-length permuted frames (n=P=2) in 2 contexts; all cell values, index contents and constants symbolic"
 		},
 		Assume: []string{
 			"frames are built as New(data).withIndex(ix) with ix an arbitrary injective sequence of positions (DESIGN 3.2)",
